@@ -40,8 +40,8 @@ S_OTHER = {"type": "record", "name": "Other", "fields": [{"name": "zz", "type": 
 Z = {"type": "record", "name": "Zero", "fields": [{"name": "n", "type": "null"}]}
 
 OPS_S = ["w_small", "w_large", "w_bad_first", "w_bad_last", "flush", "copy_null", "copy_deflate", "copyiter_null",
-         "reopen_none", "reopen_same", "reopen_diff", "reopen_codec", "reopen_meta", "reopen_marker", "reopen_midpos", "side_file", "reopen_samecanon", "w_omit_b"]
-OPS_Z = ["w_zero", "w_zero_omitted", "flush", "copy_null", "reopen_none", "reopen_codec", "side_file"]
+         "reopen_none", "reopen_same", "reopen_diff", "reopen_codec", "reopen_meta", "reopen_marker", "reopen_midpos", "side_file", "reopen_samecanon", "w_omit_b", "dump", "flush_fault", "recreate"]
+OPS_Z = ["w_zero", "w_zero_omitted", "flush", "copy_null", "reopen_none", "reopen_codec", "side_file", "dump", "flush_fault"]
 DEPTH = {"quick": 5, "thorough": 7}
 PREFIX = 2
 
@@ -103,6 +103,26 @@ def donor(fa, kind, codec):
     return _DONORS[k]
 
 
+class FaultyStream:
+    """The output stream as the Writer sees it: everything is passed through, except that write() can be armed to fail once
+    (a full disk, a dropped connection) before any byte of that call is taken."""
+
+    def __init__(self, fo):
+        self._fo = fo
+        self.armed = False
+        self.failed = 0
+
+    def write(self, b):
+        if self.armed:
+            self.armed = False
+            self.failed += 1
+            raise OSError(28, "No space left on device (injected)")
+        return self._fo.write(b)
+
+    def __getattr__(self, name):
+        return getattr(self._fo, name)
+
+
 class World:
     """The real Writer plus the reference model, driven by operation names."""
 
@@ -132,7 +152,8 @@ class World:
         # the caller's metadata dict was used for another file (other codec, other schema) just before
         meta = {"origin": "created"}
         Writer(io.BytesIO(), copy.deepcopy(S_OTHER), codec="deflate" if self.codec != "deflate" else "null", metadata=meta, sync_marker=b"o" * 16)
-        self.w = Writer(self.fo, copy.deepcopy(self.schema), codec=self.codec, sync_interval=self.interval,
+        self.proxy = FaultyStream(self.fo)
+        self.w = Writer(self.proxy, copy.deepcopy(self.schema), codec=self.codec, sync_interval=self.interval,
                         validator=self.validator, sync_marker=self.marker, metadata=meta, compression_level=self.level)
         self.model = []
         self.counter = 0
@@ -178,6 +199,40 @@ class World:
             self._write({}, False)
         elif op == "flush":
             self.w.flush()
+        elif op == "dump":
+            # the public dump(): ends the current block whatever it holds - possibly nothing (a legal zero-record block)
+            self.w.dump()
+            if self.on_file:
+                self.fo.flush()  # dump() leaves flushing the file object to the caller
+        elif op == "flush_fault":
+            # the stream refuses the first write of the flush; nothing of the block reached it, the records stay pending
+            # and a later flush delivers them
+            pending_before = self.w.block_count
+            self.proxy.armed = True
+            try:
+                self.w.flush()
+                if self.proxy.failed and pending_before:
+                    self.problems.append(("fault-swallowed", "the stream's write error did not reach the caller"))
+            except OSError:
+                pass
+            finally:
+                self.proxy.armed = False
+        elif op == "recreate":
+            # the same stream (for a real file: the same path) is emptied and a NEW container is started on it, with
+            # another sync marker and the other codec; whatever was learned about the old file no longer applies
+            self.w.flush()
+            self.fo.seek(0)
+            self.fo.truncate()
+            self.codec = "deflate" if self.codec == "null" else "null"
+            self.marker = b"n" * 16 if self.marker != b"n" * 16 else cont.sync_marker()
+            self.w = self.Writer(self.proxy, copy.deepcopy(self.schema), codec=self.codec, sync_interval=self.interval, validator=self.validator,
+                                 sync_marker=self.marker, compression_level=None)
+            self.level = None
+            if self.on_file:
+                self.fo.flush()
+            self.model = []
+            self.header = self.contents()
+            self.hdr_end = container.header_end(self.header)
         elif op == "side_file":
             # another container file is produced in the same process while this Writer is alive (another Writer's whole
             # lifetime falls inside this one's, possibly with records pending here): neither may disturb the other
@@ -222,7 +277,7 @@ class World:
             if how == "midpos":
                 # the stream was just inspected (e.g. its header read): the cursor is non-zero but not at the end
                 self.fo.seek(self.hdr_end)
-            self.w = self.Writer(self.fo, schema, **kw)
+            self.w = self.Writer(self.proxy, schema, **kw)
         else:
             raise AssertionError(op)
 
@@ -324,7 +379,7 @@ def _run_history(w, fa, cfg, hist, res, check_all):
             msg = w.check_pending()
             if msg:
                 res.add(Violation("c07.pending", "pending-buffer-inconsistent", f"after {op}: {msg} | {short(info, 300)}", info))
-            if op == "flush" or op.startswith("reopen_"):
+            if op in ("flush", "dump", "recreate") or op.startswith("reopen_"):
                 for kind, m in w.check_file():
                     res.add(Violation("c07.readback", kind, f"after {hist[:i + 1]}: {m} | config {cfg}", info))
     return w
